@@ -268,7 +268,43 @@ def b2i(x, endian):
     if isinstance(x, T) and x.op == "i2b" and x.args[2] == endian:
         # b2i(i2b(v, w, e), e) == v when it fits -- i2b raises otherwise, so on non-raising inputs equal
         return x.args[0]
+    if isinstance(x, T) and x.op == "ite" and tyof(x) == BYTES:
+        return ite(x.args[0], b2i(_unfz1(x.args[1]), endian), b2i(_unfz1(x.args[2]), endian))
     return T("b2i", (x, endian), INT)
+
+
+def bytewise(m):
+    """bytes(a ^ b for a, b in zip(X, Y)) (likewise & and |) over two byte strings of one known length n is the n-byte big-endian
+    encoding of int(X) op int(Y); None for any other shape."""
+    m = _unfz1(m)
+    if not (isinstance(m, T) and m.op == "map" and m.args[2] is None):
+        return None
+    body, z = m.args[0], m.args[1]
+    if not (isinstance(z, T) and z.op == "app" and z.args[0] == "zip" and len(z.args[1]) == 2 and not z.args[2]):
+        if not (isinstance(z, T) and z.op == "zip" and len(z.args) == 2):
+            return None
+        x, y = z.args
+    else:
+        x, y = z.args[1]
+    if tyof(x) != BYTES or tyof(y) != BYTES:
+        return None
+    n = blen(x)
+    if not (isinstance(n, int) and not isinstance(n, bool) and blen(y) == n):
+        return None
+    if not (isinstance(body, T) and body.op in ("bxor", "band", "bor") and len(body.args) == 2):
+        return None
+    d = None
+    sides = set()
+    for a in body.args:
+        if not (isinstance(a, T) and a.op == "proj" and isinstance(a.args[0], T) and a.args[0].op == "bv" and a.args[1] in (0, 1)):
+            return None
+        if d is not None and a.args[0].args[0] != d:
+            return None
+        d = a.args[0].args[0]
+        sides.add(a.args[1])
+    if sides != {0, 1}:
+        return None
+    return i2b(binop(body.op, b2i(x, "big"), b2i(y, "big")), n, "big")
 
 
 def hashf(algo, x):
@@ -316,6 +352,10 @@ def blen(x):
             if isinstance(n, int) and not isinstance(n, bool) and (lo is None or (isinstance(lo, int) and not isinstance(lo, bool))) and \
                     (hi is None or (isinstance(hi, int) and not isinstance(hi, bool))):
                 return len(range(*slice(lo, hi).indices(n)))
+        if x.op == "ite":
+            n1, n2 = blen(_unfz1(x.args[1])), blen(_unfz1(x.args[2]))
+            if isinstance(n1, int) and n1 == n2:
+                return n1
         if x.op == "hex":
             n = blen(x.args[0])
             if n is not None:
@@ -448,6 +488,8 @@ def idx(x, i):
     ty = ANY
     if tyof(x) == BYTES:
         ty = INT
+    if isinstance(x, T) and tyof(x) in (ANY, TUPLE) and isinstance(i, int) and not isinstance(i, bool) and i >= 0 and x.op in ("app", "proj", "ite", "unk"):
+        return T("proj", (x, i), ANY)  # pair[i] and tuple unpacking name the same component of a returned tuple
     return T("idx", (x, i), ty)
 
 
@@ -608,6 +650,10 @@ def cmp(op, a, b):
                 return a is not b if (a is None or b is None or isinstance(a, bool)) else a != b
         except TypeError:
             pass
+    if op in ("eq", "ne") and b in (0, 1) and not isinstance(b, bool) and isinstance(a, T) and a.op == "mod" and a.args[1] == 2:
+        # parity tests: x % 2 == 1, x % 2 != 0 and bool(x % 2) are one term; == 0 / != 1 its negation
+        odd = truth(a)
+        return odd if (op == "eq") == (b == 1) else lnot(odd)
     if op in ("is", "isnot", "eq", "ne") and isinstance(a, T) and isinstance(b, T) and a.op == "ext" and b.op == "ext":
         same = a.args[0] == b.args[0]
         return same if op in ("is", "eq") else not same
